@@ -122,6 +122,7 @@ fn run_a<S: StoreAccess>(ctx: &mut Ctx, mut store: S, c: &CaseA, ref_handle: Opt
     let held_for_rp: Vec<&Passkey> = creds.iter().filter(|p| p.rp_id == rp).collect();
     let names_foreign = named.as_ref().is_some_and(|n| creds.iter().any(|p| p.rp_id != rp && n.contains(&p.credential_id.to_vec())));
     ctx.eval();
+    ctx.sample(&format!("authenticator/{:?}/{}", c.kind, if c.create { "create" } else { "assert" }), || json!(c));
     let populated_rps = RPS.iter().filter(|r| creds.iter().any(|p| p.rp_id == **r)).count();
     if populated_rps >= 2 && names_foreign {
         ctx.nontrivial(c);
@@ -362,6 +363,7 @@ fn run_b<S: CredentialStore<PasskeyItem = Passkey>>(ctx: &mut Ctx, mut store: S,
 
 pub fn check_b(ctx: &mut Ctx, c: &CaseB) -> Result<(), String> {
     use tokio::sync::{Mutex, RwLock};
+    ctx.sample(&format!("contract/{:?}", c.kind), || json!(c));
     match c.kind {
         Kind::Ref => run_b(ctx, RefStore::new(Disc::Full), c),
         Kind::Memory => run_b(ctx, MemoryStore::new(), c),
